@@ -43,7 +43,7 @@ class C10Machine(Machine):
         "transitive_curie_remap_applied", "uri_remap_applied", "rewire_applied",
         "chain_merged_later_into_earlier", "discover_with_known_uris", "lineage_depth_ge_3",
         "sub_nonempty", "mutation_right_after_derivation", "chain_same_converter_twice",
-        "curie_remap_applied",
+        "curie_remap_applied", "large_root",
     ]
 
     @classmethod
@@ -67,6 +67,11 @@ class C10Machine(Machine):
             "p_hit_inherited": rng.choice([0.5, 0.8, 0.95]),
             "delimiters": [":"] + ([rng.choice(tokens.DELIMITERS[1:])] if rng.random() < 0.3 else []),
         }
+        large = rng.random() < (0.03 if tier == "quick" else 0.06)
+        cfg["large"] = large
+        if large:
+            cfg["curie_pool"] = cfg["curie_pool"] + tokens.synthetic_curie_prefixes(30)
+            cfg["uri_pool"] = cfg["uri_pool"] + tokens.synthetic_uri_prefixes(30)
         return cfg
 
     def __init__(self, config, known=frozenset()):
@@ -132,7 +137,8 @@ class C10Machine(Machine):
 
     def _gen_new(self, rng):
         cfg = self.config
-        recs = gen_valid_records(rng, cfg["curie_pool"], cfg["uri_pool"], rng.randint(1, 4))
+        n = rng.randint(1, 4) if not cfg.get("large") else rng.randint(8, 24)
+        recs = gen_valid_records(rng, cfg["curie_pool"], cfg["uri_pool"], n)
         return {"op": "new", "out": self._fresh_id(), "records": recs, "delimiter": rng.choice(cfg["delimiters"])}
 
     def _gen_chain(self, rng):
@@ -366,6 +372,8 @@ class C10Machine(Machine):
                 return {"skipped": "invalid records"}
             h = self._add(conv, [], "new", op.get("out"))
             self.event("new")
+            if len(op["records"]) >= 8:
+                self.probe("large_root")
             self.last_was_derivation = None
             self._note("new")
             return {"new": h}
